@@ -728,9 +728,8 @@ Proof.
       erewrite bind_ok by (eapply iter_len_ok; [exact Hic|lia]). cbv beta.
       eexists _, s'. split; [reflexivity|]. cbn [slots_of]. auto.
     + (* next, then a write through the reference *)
-      unfold iter_mut_next.
       destruct (Z.lt_ge_cases lo hi) as [Hlt|Hge].
-      * destruct (iter_next_some s it _ _ Hi Hlt) as (it' & Hn & Hi').
+      * destruct (iter_mut_next_some s it _ _ Hi Hlt) as (it' & Hn & Hi').
         set (s1 := b_items s (s_write (items s) (phys s lo) v)).
         assert (HW1 : WF s1) by exact HW.
         assert (Hi1 : inv s1 it' (lo + 1) hi) by exact Hi'.
@@ -742,13 +741,13 @@ Proof.
            intros p Hp. destruct (Hin p Hp) as (i & ? & ?). exists i. split; [lia|split; [lia|auto]].
         -- intros p [<-|Hp]; [exists lo; split; [lia|reflexivity]|].
            destruct (Hin p Hp) as (i & ? & ?). exists i. split; [lia|auto].
-      * destruct (IH s w it lo hi HW Hi Hlh Hhi) as (rs & s' & Hr & Hnd & Hin).
-        rewrite (iter_next_none s it _ _ Hi) by lia. mcbn. erewrite bind_ok by exact Hr.
+      * destruct (iter_mut_next_none s it _ _ Hi ltac:(lia)) as (Hn & Hi').
+        destruct (IH s w iter_empty lo hi HW Hi' Hlh Hhi) as (rs & s' & Hr & Hnd & Hin).
+        rewrite Hn. mcbn. erewrite bind_ok by exact Hr.
         eexists _, s'. split; [reflexivity|]. cbn [slots_of]. auto.
     + (* next_back, then a write through the reference *)
-      unfold iter_mut_next_back.
       destruct (Z.lt_ge_cases lo hi) as [Hlt|Hge].
-      * destruct (iter_next_back_some s it _ _ Hi Hlt) as (it' & Hn & Hi').
+      * destruct (iter_mut_next_back_some s it _ _ Hi Hlt) as (it' & Hn & Hi').
         set (s1 := b_items s (s_write (items s) (phys s (hi - 1)) v)).
         assert (HW1 : WF s1) by exact HW.
         assert (Hi1 : inv s1 it' lo (hi - 1)) by exact Hi'.
@@ -761,8 +760,9 @@ Proof.
            intros p Hp. destruct (Hin p Hp) as (i & ? & ?). exists i. split; [lia|split; [lia|auto]].
         -- intros p [<-|Hp]; [exists (hi - 1); split; [lia|reflexivity]|].
            destruct (Hin p Hp) as (i & ? & ?). exists i. split; [lia|auto].
-      * destruct (IH s w it lo hi HW Hi Hlh Hhi) as (rs & s' & Hr & Hnd & Hin).
-        rewrite (iter_next_back_none s it _ _ Hi) by lia. mcbn. erewrite bind_ok by exact Hr.
+      * destruct (iter_mut_next_back_none s it _ _ Hi ltac:(lia)) as (Hn & Hi').
+        destruct (IH s w iter_empty lo hi HW Hi' Hlh Hhi) as (rs & s' & Hr & Hnd & Hin).
+        rewrite Hn. mcbn. erewrite bind_ok by exact Hr.
         eexists _, s'. split; [reflexivity|]. cbn [slots_of]. auto.
 Qed.
 
